@@ -3,7 +3,7 @@
 # (suite unchanged with the patch; demo fails with it and passes without), then file it under /verif/seeded/.
 set -u
 P=$1; M=$2
-SRC=/tmp/mut/${P}_out/$M
+SRC=${MUTBASE:-/tmp/mut}/${P}_out/$M
 WT=/tmp/sv/${P}_$M
 rm -rf $WT; mkdir -p /tmp/sv
 git -C /repo worktree add -q --detach $WT HEAD || exit 2
